@@ -111,7 +111,7 @@ PROPS = {
         assumptions=COMMON_ASSUME + ["loadable modules are not exercised (active_loaded_modules stays empty)",
                                      "globals are created, never mutated after creation: a snapshot shares Boxed_Value data with the live table by design, so only presence and identity are compared",
                                      "user conversions are documented as not part of State and are not generated"],
-        expected_probes=["fault_state_restore", "probe_restored_older_than_latest_snapshot", "probe_background_eval_overlapped_chain_op", "fault_throw_mid_eval", "probe_background_use_overlapped_chain_op", "probe_two_part_file_checked"],
+        expected_probes=["fault_state_restore", "probe_restored_older_than_latest_snapshot", "probe_background_eval_overlapped_chain_op", "fault_throw_mid_eval", "probe_background_use_overlapped_chain_op", "probe_two_part_file_checked", "probe_background_type_registration"],
         **two(40, 420,
               {"asan": {"workers": 8}, "plain": {"workers": 4}, "tsan": {"workers": 4}},
               {"asan": {"workers": 8}, "plain": {"workers": 4}, "tsan": {"workers": 4}}),
